@@ -353,6 +353,10 @@ func init() {
 		ext(id, "GET /aa/zz?<0..5 (quick) / 0..7 (thorough) fully symbolic bytes> through ServeHTTP with net/url's query parsing interpreted: one well-formed response, no crash; on dispatch the path-bound field holds the path capture and a plain g=<value> arrives verbatim",
 			HarnessSpec{Name: "VerifH_serveHTTP_rawquery", Covers: []string{"refused", "delivered", "delivered-g"}})
 	}
+	for _, id := range []string{"C04", "C08"} {
+		ext(id, "unary transcoded replies of limit-1, limit, limit+1 symbolic bytes through ServeHTTP with MaxSendMessageSizeOption: within the limit a 200 with exactly the reply's bytes, over the limit not delivered",
+			HarnessSpec{Name: "VerifH_serveHTTP_sendlimit", Covers: []string{"within", "refused"}})
+	}
 	wkt := "well-known-type parameters (google.protobuf wrappers, FieldMask, Duration, Timestamp) through the real parseQueryParams / parseParam / quote / params.set: the empty text for each of 10 types, a menu of 40 boundary texts (non-BMP strings, 32/64-bit limits, duration range and Go-style units, leap days, RFC 3339 range), symbolic texts of 1..3 (quick) / 1..4 (thorough) bytes for StringValue, BoolValue, Int32Value / UInt32Value, BytesValue, FieldMask; protojson's scalar forms modelled (model_wkt.go), generated messages seen through a fake reflection view"
 	for _, id := range []string{"C03", "C09", "C01"} {
 		ext(id, wkt, HarnessSpec{Name: "VerifH_params_wkt", Covers: []string{"empty-value", "menu-accepted", "menu-rejected", "string-wrapper", "bool-wrapper", "int-wrapper", "int-wrapper-rejected", "bytes-wrapper", "fieldmask", "fieldmask-rejected"}})
